@@ -53,10 +53,14 @@ fn make_ca(cn: &str) -> (CertificateParams, KeyPair, String) {
 }
 
 fn make_leaf(ca: &(CertificateParams, KeyPair, String), san: &str, cn: &str, client: bool) -> (String, String, Vec<u8>) {
+    make_leaf_with(ca, san, cn, client, KeyPair::generate().unwrap())
+}
+
+/// a leaf certificate over a given key (other key algorithms than rcgen's default P-256)
+fn make_leaf_with(ca: &(CertificateParams, KeyPair, String), san: &str, cn: &str, client: bool, kp: KeyPair) -> (String, String, Vec<u8>) {
     let mut params = CertificateParams::new(vec![san.to_string()]).unwrap();
     params.distinguished_name.push(DnType::CommonName, cn);
     params.extended_key_usages = vec![if client { ExtendedKeyUsagePurpose::ClientAuth } else { ExtendedKeyUsagePurpose::ServerAuth }];
-    let kp = KeyPair::generate().unwrap();
     let issuer = Issuer::from_params(&ca.0, &ca.1);
     let cert = params.signed_by(&kp, &issuer).unwrap();
     (cert.pem(), kp.serialize_pem(), cert.der().to_vec())
@@ -69,13 +73,16 @@ impl Pki {
         let ca_a = make_ca("verif root A");
         let ca_b = make_ca("verif root B");
         let cca = make_ca("verif client CA");
-        std::fs::write(d.join("rootA.pem"), &ca_a.2).unwrap();
+        // the trust anchors are given as bundles with the relevant certificate in the middle: a loader that takes only
+        // the first (or the last) certificate of a file would not find it
+        let (pad1, pad2, pad3, pad4) = (make_ca("verif unused 1"), make_ca("verif unused 2"), make_ca("verif unused 3"), make_ca("verif unused 4"));
+        std::fs::write(d.join("rootA.pem"), format!("{}{}{}", pad1.2, ca_a.2, pad2.2)).unwrap();
         std::fs::write(d.join("blank.pem"), b"# a CA bundle that holds no certificate\n\n").unwrap();
         // a client certificate issued under root A (which is also what the harness installs as the system store)
         let c3 = make_leaf(&ca_a, "client.local", "client under system root", true);
         std::fs::write(d.join("cli3.pem"), &c3.0).unwrap();
         std::fs::write(d.join("cli3.key"), &c3.1).unwrap();
-        std::fs::write(d.join("clientca.pem"), &cca.2).unwrap();
+        std::fs::write(d.join("clientca.pem"), format!("{}{}{}", pad3.2, cca.2, pad4.2)).unwrap();
         let mut srv_der = vec![];
         let s0 = make_leaf(&ca_a, "localhost", "srv trusted", false);
         let s1 = make_leaf(&ca_b, "localhost", "srv other", false);
@@ -86,14 +93,20 @@ impl Pki {
             let cert = params.self_signed(&kp).unwrap();
             (cert.pem(), kp.serialize_pem(), cert.der().to_vec())
         };
-        for (i, s) in [s0, s1, s2].into_iter().enumerate() {
+        // the trusted server certificate again over other key algorithms (Ed25519, P-384, RSA 2048)
+        let s3 = make_leaf_with(&ca_a, "localhost", "srv trusted ed25519", false, KeyPair::generate_for(&rcgen::PKCS_ED25519).unwrap());
+        let s4 = make_leaf_with(&ca_a, "localhost", "srv trusted p384", false, KeyPair::generate_for(&rcgen::PKCS_ECDSA_P384_SHA384).unwrap());
+        let s5 = make_leaf_with(&ca_a, "localhost", "srv trusted rsa", false, KeyPair::generate_rsa_for(&rcgen::PKCS_RSA_SHA256, rcgen::RsaKeySize::_2048).unwrap());
+        for (i, s) in [s0, s1, s2, s3, s4, s5].into_iter().enumerate() {
             std::fs::write(d.join(format!("srv{i}.pem")), &s.0).unwrap();
             std::fs::write(d.join(format!("srv{i}.key")), &s.1).unwrap();
             srv_der.push(s.2);
         }
         let c1 = make_leaf(&cca, "client.local", "client good", true);
         let c2 = make_leaf(&ca_b, "client.local", "client other", true);
-        for (i, c) in [(1, c1), (2, c2)] {
+        // a good client certificate over an Ed25519 key
+        let c4 = make_leaf_with(&cca, "client.local", "client good ed25519", true, KeyPair::generate_for(&rcgen::PKCS_ED25519).unwrap());
+        for (i, c) in [(1, c1), (2, c2), (4, c4)] {
             std::fs::write(d.join(format!("cli{i}.pem")), &c.0).unwrap();
             std::fs::write(d.join(format!("cli{i}.key")), &c.1).unwrap();
         }
@@ -457,7 +470,7 @@ impl Ctx {
         unsafe { std::env::set_var("SSL_CERT_FILE", p(pki.d(), "rootA.pem")) };
         let servers = rt.block_on(async {
             let mut v = vec![];
-            for sc in 0..3u64 {
+            for sc in 0..6u64 {
                 for ca in [false, true] {
                     v.push(start_server(&pki, &format!("m{sc}{}", u8::from(ca)), sc, ca).await);
                 }
@@ -481,8 +494,8 @@ impl Ctx {
     }
     pub fn run_case(&self, c: &[u64]) -> Vec<u64> {
         match c.first() {
-            Some(1) if c.len() == 6 && c[1] < 3 && c[4] < 3 => self.rt.block_on(matrix_case(&self.pki, &self.servers, &c[1..])),
-            Some(2) if c.len() >= 3 && c[1] < 3 => {
+            Some(1) if c.len() == 6 && c[1] < 6 && c[4] < 5 => self.rt.block_on(matrix_case(&self.pki, &self.servers, &c[1..])),
+            Some(2) if c.len() >= 3 && c[1] < 6 => {
                 self.n.set(self.n.get() + 1);
                 self.rt.block_on(reload_case(&self.pki, &format!("r{}", self.n.get()), &c[1..]))
             }
@@ -500,17 +513,23 @@ impl Ctx {
 pub fn generate(a: &Args, out: &mut Out) {
     let ctx = Ctx::new();
     let mut rng = Rng(a.seed ^ 0x17);
-    for sc in 0..3u64 {
+    let mut matrix = vec![];
+    for sc in 0..6u64 {
         for nm in 0..2u64 {
             for sk in 0..2u64 {
-                for cc in 0..3u64 {
+                for cc in 0..5u64 {
                     for ca in 0..2u64 {
-                        let c = vec![17, 1, sc, nm, sk, cc, ca];
-                        let r = ctx.run_case(&c[1..]);
-                        out.emit(&c, &r);
+                        matrix.push(vec![17, 1, sc, nm, sk, cc, ca]);
                     }
                 }
             }
+        }
+    }
+    // the configurations are independent of each other: eight at a time
+    for batch in matrix.chunks(8) {
+        let rs = ctx.rt.block_on(futures_util::future::join_all(batch.iter().map(|c| matrix_case(&ctx.pki, &ctx.servers, &c[2..]))));
+        for (c, r) in batch.iter().zip(rs) {
+            out.emit(c, &r);
         }
     }
     for (cert, n) in [(0u64, 3u64), (2, 2)] {
@@ -545,7 +564,7 @@ pub fn generate(a: &Args, out: &mut Out) {
         out.emit(&c, &r);
     }
     for _ in 0..a.n {
-        let mut c = vec![17, 2, rng.below(3), rng.below(2)];
+        let mut c = vec![17, 2, rng.below(6), rng.below(2)];
         let n = 2 + rng.below(8);
         let mut conns = 0;
         for _ in 0..n {
@@ -555,7 +574,7 @@ pub fn generate(a: &Args, out: &mut Out) {
                     conns += 1;
                 }
                 10 | 11 => c.extend([3, rng.below(2)]),
-                4..=6 => c.extend([1, u64::from(!rng.chance(1, 5)), rng.below(3), rng.below(2)]),
+                4..=6 => c.extend([1, u64::from(!rng.chance(1, 5)), rng.below(6), rng.below(2)]),
                 _ => c.extend([2, if conns > 0 && !rng.chance(1, 8) { rng.below(conns) } else { conns + rng.below(2) }]),
             }
         }
